@@ -367,8 +367,11 @@ class Runner:
             pass
         self.native.start()
 
-    def func_term(self, m):
-        return m["func"]
+    def rust_observe(self, ty, val):
+        """model of the code (RustProfile.rustObserve): the value Rust code observes when the host sends val"""
+        ans = self.host.rq(f"rustobserve|{ty}|{val}")
+        if ans is None: raise Crash("m_host died")
+        return ans[3:] if ans.startswith("ok ") else None
 
     def export_call(self, m, vals, ret):
         """m: manifest entry (dir=export).  vals: list of value terms, ret: value term or None.
@@ -379,6 +382,7 @@ class Runner:
         if ans is None: raise Crash("m_host died")
         im = parse_image(ans)
         out["host_indirect"] = im["indirect"]
+        out["model_observed"] = self.rust_observe(params_ty(m), vals_term(vals))
         r = native.rq(f"SCRIPT|{m['key']}|{ret if ret is not None else '(r)'}")
         if r is None: raise Crash("SCRIPT")
         flat, hostblocks = place_image(native, im)
@@ -471,6 +475,8 @@ class Runner:
             native.send(f"RETURN|{retbits}")
 
         out["import_handler"] = handler
+        if m["result"] is not None:
+            out["model_returned"] = self.rust_observe(m["result"], ret)
         native.send(f"DRIVE|{m['key']}|(r{''.join(' ' + v for v in vals)})")
         ans = self.await_final(out)
         del out["import_handler"]
@@ -615,6 +621,50 @@ def vals_term(vals):
     return "(r" + "".join(" " + v for v in vals) + ")"
 
 
+def diff_leaves(a, b, t, path=""):
+    """[(path, type tree, sent subtree, got subtree)] for the maximal differing positions"""
+    if a == b:
+        return []
+    if isinstance(t, str) or a is None or b is None or isinstance(a, str) or isinstance(b, str) or a[0] != b[0] or len(a) != len(b):
+        return [(path, t, a, b)]
+    k = t[0]
+    if k in ("list", "flist"):
+        return [d for i, (x, y) in enumerate(zip(a[1:], b[1:])) for d in diff_leaves(x, y, t[1], f"{path}[{i}]")]
+    if k == "map":
+        return [d for i, (x, y) in enumerate(zip(a[1:], b[1:]))
+                for d in diff_leaves(x[1], y[1], t[1], f"{path}[{i}].k") + diff_leaves(x[2], y[2], t[2], f"{path}[{i}].v")]
+    if k in ("record", "tuple"):
+        return [d for i, (x, y, ft) in enumerate(zip(a[1:], b[1:], t[1:])) for d in diff_leaves(x, y, ft, f"{path}.{i}")]
+    if k in ("variant", "option", "result"):
+        if a[1] != b[1]:
+            return [(path, t, a, b)]
+        i = int(a[1])
+        ct = t[1] if k == "option" else t[1 + i]
+        return diff_leaves(a[2], b[2], ct, f"{path}#{i}")
+    return [(path, t, a, b)]
+
+
+def flags_signext(bits):
+    """what `(word as i32 as uN) << 32*i` OR-ed together yields: every word whose bit 31 is set sets all higher flags"""
+    out = list(bits)
+    for w in range(len(bits) // 32 + 1):
+        top = 32 * w + 31
+        if top < len(bits) and bits[top] == "1":
+            for j in range(top + 1, len(bits)): out[j] = "1"
+    return "".join(out)
+
+
+def diff_class(sent, got, ty):
+    """refine a value mismatch into a stable class key"""
+    if got is None:
+        return None
+    leaves = diff_leaves(parse(sent), parse(got), parse(ty))
+    if leaves and all((not isinstance(t, str)) and t[0] == "flags" and int(t[1]) > 32 and a[0] == "fl" and b[0] == "fl"
+                      and len(a) > 1 and len(b) > 1 and flags_signext(a[1]) == b[1] for _, t, a, b in leaves):
+        return "flags-lift-sign-extends-word"
+    return None
+
+
 def value_findings(m, o):
     """C05 monitor on one call outcome: list of (class, what, detail)"""
     out = []
@@ -626,8 +676,9 @@ def value_findings(m, o):
         if o.get("observed_count") != 1:
             out.append(("export-user-function-call-count", f"user function behind the export ran {o.get('observed_count')} times", {}))
         elif canon_str(o["observed"], pt) != sent:
-            out.append(("value-changed:export-args", "arguments sent by the host arrived changed in the Rust implementation",
-                        {"sent": sent, "observed": canon_str(o["observed"], pt)}))
+            got = canon_str(o["observed"], pt)
+            out.append((diff_class(sent, got, pt) or "value-changed:export-args", "arguments sent by the host arrived changed in the Rust implementation",
+                        {"sent": sent, "observed": got}))
         if m["result"] is not None:
             want = canon_str(o["ret"], m["result"])
             if o.get("lifted") is None:
@@ -648,11 +699,27 @@ def value_findings(m, o):
             want = canon_str(o["ret"], m["result"])
             got = canon_str(o["returned"], m["result"]) if o.get("returned") else None
             if got != want:
-                out.append(("value-changed:import-result", "result sent by the host arrived changed in Rust code",
+                out.append((diff_class(want, got, m["result"]) or "value-changed:import-result", "result sent by the host arrived changed in Rust code",
                             {"sent": want, "observed": got}))
     if o.get("unexpected_imports"):
         out.append(("unexpected-import-call", "the guest called imports the scenario does not expect", {"imports": o["unexpected_imports"]}))
     return out
+
+
+def value_corr(m, o):
+    """(impl, model) canonical strings of what each side of the boundary saw"""
+    if "error" in o:
+        return "error: " + o["error"][:100], "completes"
+    pt = params_ty(m)
+    cs = lambda v, t: canon_str(v, t) if v else "none"
+    rt = m["result"]
+    if o["kind"] == "export":
+        impl = f"args:{cs(o.get('observed'), pt)} result:{cs(o.get('lifted'), rt) if rt else '-'}"
+        model = f"args:{cs(o.get('model_observed'), pt)} result:{cs(o['ret'], rt) if rt else '-'}"
+    else:
+        impl = f"args:{cs(o.get('lifted_args'), pt)} result:{cs(o.get('returned'), rt) if rt else '-'}"
+        model = f"args:{cs(vals_term(o['vals']), pt)} result:{cs(o.get('model_returned'), rt) if rt else '-'}"
+    return impl, model
 
 
 def nz(blocks):
